@@ -23,7 +23,7 @@ import core
 from ser import Ser, Unsupported, rat
 
 LEAN_MODULE = "Optyx.Props.C11"
-EXTRA_MODULES = ["Optyx.Props.PinsC11", "Optyx.Props.OperatorsTie"]   # transcription anchors (harness/source_pins.py)
+EXTRA_MODULES = ["Optyx.Props.PinsC11", "Optyx.Props.OperatorsTie", "Optyx.Props.EvalTie"]   # transcription anchors (harness/source_pins.py)
 THEOREMS = [
     "Optyx.Props.C11.getitem_denote",
     "Optyx.Props.C11.slice_denote",
@@ -57,6 +57,8 @@ THEOREMS = [
     "Optyx.Props.OperatorsTie.operators_spec",
     "Optyx.Props.OperatorsTie.comparisons_spec",
     "Optyx.Props.OperatorsTie.ensureExpr_text",
+    "Optyx.Props.EvalTie.evaluate_step",
+    "Optyx.Props.EvalTie.step_unique",
     "Optyx.Props.PinsC11.anchors",
 ]
 ASSUMPTIONS = [
